@@ -219,7 +219,10 @@ func (c *ctx) caseLex(mid string, cs bool, q string, tag string) {
 	beginCase(fmt.Sprintf("lex %s %s %s", mid, vh.B(cs), hexs(q)))
 	defer endCase()
 	m := mappingByID(mid)
-	toks, ended := parser.VerifLex(q, len(q)+2)
+	toks, ended, lp := safeLex(c, q, fmt.Sprintf("lex %s %s %s", mid, vh.B(cs), hexs(q)))
+	if lp {
+		return
+	}
 	if !ended {
 		c.violate("parser/seqql.go:Next", "no-termination", fmt.Sprintf("the lexer does not reach the end of %q within len+2 tokens", q),
 			fmt.Sprintf("lex %s %s %s", mid, vh.B(cs), hexs(q)))
@@ -340,7 +343,7 @@ func (c *ctx) caseLegacyStr(mid string, cs bool, q string, tag string) {
 // goodLegacy generates a mostly well-formed legacy query.
 func goodLegacy(r *vh.RNG) string {
 	fields := []string{"fk", "ft", "fp", "fm", "fm.keyword", "_all_", "_exists_", "service", "message", "level", "request_uri"}
-	words := []string{"a", "abc", "Error", "payment\\-api", "a_b.c", "x1", "Ünïcode", "日本語", "K", "İstanbul", "1e3", "a\\-b", "some*", "*end", "mi*dle", "*", "a\\ b", "a\\:b", "a\\/b",
+	words := []string{"v²1", "½", "x① y〇", "ʰa", "٣٤", "a\u0301b", "a", "abc", "Error", "payment\\-api", "a_b.c", "x1", "Ünïcode", "日本語", "K", "İstanbul", "1e3", "a\\-b", "some*", "*end", "mi*dle", "*", "a\\ b", "a\\:b", "a\\/b",
 		`"two words"`, `"esc\\"aped"`, `"wild*card"`, `"lit\\*star"`, `"back\\\\slash"`, `"odd\\qescape"`, `"A B  C"`, `"x:y/z"`, `""`, `"a-b"`, "a-b", "http"}
 	var atom func() string
 	atom = func() string {
@@ -423,24 +426,43 @@ func uqS(q string, quote byte) string {
 	return rnS(string(v), v) + "~" + strconv.Itoa(len(decodeAll(consumed)))
 }
 
-func (c *ctx) caseLexer(q string, tag string) {
-	beginCase("lexerq " + hexs(q))
-	defer endCase()
-	toks, ended := parser.VerifLex(q, len(q)+2)
-	if !ended {
-		c.violate("parser/seqql.go:Next", "no-termination", fmt.Sprintf("the lexer does not reach the end of %q within len+2 tokens", q), "lexerq "+hexs(q))
-		return
+// safeLex runs the real lexer under recover: a panic of the lexer on an input is a violation with that input as replay.
+func safeLex(c *ctx, q string, replay string) (toks []parser.VerifLexToken, ended bool, panicked bool) {
+	p, site, msg := guarded(func() { toks, ended = parser.VerifLex(q, len(q)+2) })
+	if p {
+		c.violate(site, "parser-panics", fmt.Sprintf("the SeqQL lexer panicked on %q: %s", q, msg), replay)
+		return nil, false, true
 	}
+	return toks, ended, false
+}
+
+func lexerRequest(q string) string {
 	var parts []string
 	for i := 0; i < len(q); {
 		r, size := utf8.DecodeRuneInString(q[i:])
 		parts = append(parts, rnS(q[i:i+size], r)+"!"+uqS(q[i:], '\'')+"!"+uqS(q[i:], '"'))
 		i += size
 	}
-	req := "lexer -"
-	if len(parts) > 0 {
-		req = "lexer " + strings.Join(parts, ".")
+	if len(parts) == 0 {
+		return "lexer -"
 	}
+	return "lexer " + strings.Join(parts, ".")
+}
+
+func (c *ctx) caseLexer(q string, tag string) {
+	beginCase("lexerq " + hexs(q))
+	defer endCase()
+	toks, ended, lp := safeLex(c, q, "lexerq "+hexs(q))
+	if lp {
+		// the implementation panicked: still ask the model, so that the channel records the disagreement
+		c.chLexer.Add(lexerRequest(q), "panic", true, "gen="+tag, "result=panic")
+		return
+	}
+	if !ended {
+		c.violate("parser/seqql.go:Next", "no-termination", fmt.Sprintf("the lexer does not reach the end of %q within len+2 tokens", q), "lexerq "+hexs(q))
+		return
+	}
+	req := lexerRequest(q)
 	ts := make([]string, len(toks))
 	for i, t := range toks {
 		fl := []byte("---")
@@ -484,6 +506,12 @@ func (c *ctx) runLexer(r *vh.RNG) {
 		}
 	}
 	rec("", c.o.Pick(3, 4))
+	for _, v := range []string{`service:"a\"`, `service:'it\'s`, `message:"payment \"failed and level:3`, `"\"`, `'\'`, `"a\\"`, `"a\\\"`, `"*\"`, `'a*\'b`,
+		`"\*`, `"a\`, "`a", `"`, `'`, `"ab`, `"a*`, `"a\"b\"`, `f:"x\" and g:"y"`, `f:'x\' or g:'y'`} {
+		c.caseLexer(v, "unterminated")
+		c.caseLex("nil", false, v, "unterminated")
+		c.caseLex("full", false, "fk:"+v, "unterminated")
+	}
 	for _, v := range hostileValues {
 		c.caseLexer(v, "values")
 		c.caseLexer("fk:"+v+" and "+v, "values")
